@@ -199,7 +199,9 @@ func (m *model) anyStopping() bool {
 	return false
 }
 
-func abnormal(r error) bool { return r != gen.TerminateReasonNormal && r != gen.TerminateReasonShutdown }
+func abnormal(r error) bool {
+	return r != gen.TerminateReasonNormal && r != gen.TerminateReasonShutdown
+}
 
 // died: child i is gone with reason r (spontaneously, or because a requested exit reached it)
 func (m *model) died(i int, r error, requested bool) {
